@@ -226,6 +226,46 @@ Proof.
   rewrite Hc in Hb. split; [exact Hb|]. unfold others in Hb. lia.
 Qed.
 
+(* the executable step function and the rule-by-rule relation are the same relation *)
+Theorem step_astep s s' : step s s' <-> astep s s'.
+Proof.
+  split.
+  - intros [o Hst]. destruct o as [m sz| | | | |]; cbn [chan_step] in Hst.
+    + destruct (c_spc s) eqn:Es; try discriminate. inversion Hst; subst; clear Hst.
+      destruct (N.ltb_spec (c_cap s) (c_usage s)).
+      * apply a_fetch_add_wait; assumption.
+      * apply a_fetch_add_admit; assumption.
+    + destruct (c_spc s) as [|m sz|m sz|] eqn:Es; try discriminate. inversion Hst; subst; clear Hst.
+      destruct (N.ltb_spec (c_usage s) sz).
+      * apply (a_load_underflow s m sz); assumption.
+      * destruct (N.ltb_spec (c_cap s) (c_usage s - sz)).
+        -- apply (a_load_spin s m sz); assumption.
+        -- apply (a_load_pass s m sz); assumption.
+    + destruct (c_spc s) as [|m sz|m sz|] eqn:Es; try discriminate. inversion Hst; subst; clear Hst.
+      apply (a_push s m sz); assumption.
+    + destruct (c_rpc s) eqn:Er; try discriminate. destruct (c_queue s) as [|[m sz] t] eqn:Eq; try discriminate.
+      inversion Hst; subst; clear Hst. apply (a_pop s m sz t); assumption.
+    + destruct (c_rpc s) eqn:Er; try discriminate. destruct (c_queue s) eqn:Eq; try discriminate.
+      inversion Hst; subst; clear Hst. apply a_try_empty; assumption.
+    + destruct (c_rpc s) as [|m sz|] eqn:Er; try discriminate.
+      destruct (N.ltb_spec (c_usage s) sz); inversion Hst; subst; clear Hst.
+      * apply (a_fetch_sub_underflow s m sz); assumption.
+      * apply (a_fetch_sub s m sz); assumption.
+  - intros H. destruct H as [m sz Es Hc|m sz Es Hc|m sz Es Hu Hc|m sz Es Hu Hc|m sz Es Hu|m sz Es|m sz t Er Eq|Er Eq|m sz Er Hu|m sz Er Hu].
+    + exists (OFetchAdd m sz). cbn [chan_step]. rewrite Es. destruct (N.ltb_spec (c_cap s) (c_usage s)); [lia | reflexivity].
+    + exists (OFetchAdd m sz). cbn [chan_step]. rewrite Es. destruct (N.ltb_spec (c_cap s) (c_usage s)); [reflexivity | lia].
+    + exists OLoad. cbn [chan_step]. rewrite Es. destruct (N.ltb_spec (c_usage s) sz); [lia|].
+      destruct (N.ltb_spec (c_cap s) (c_usage s - sz)); [reflexivity | lia].
+    + exists OLoad. cbn [chan_step]. rewrite Es. destruct (N.ltb_spec (c_usage s) sz); [lia|].
+      destruct (N.ltb_spec (c_cap s) (c_usage s - sz)); [lia | reflexivity].
+    + exists OLoad. cbn [chan_step]. rewrite Es. destruct (N.ltb_spec (c_usage s) sz); [reflexivity | lia].
+    + exists OPush. cbn [chan_step]. rewrite Es. reflexivity.
+    + exists OPop. cbn [chan_step]. rewrite Er, Eq. reflexivity.
+    + exists OTryEmpty. cbn [chan_step]. rewrite Er, Eq. reflexivity.
+    + exists OFetchSub. cbn [chan_step]. rewrite Er. destruct (N.ltb_spec (c_usage s) sz); [lia | reflexivity].
+    + exists OFetchSub. cbn [chan_step]. rewrite Er. destruct (N.ltb_spec (c_usage s) sz); [reflexivity | lia].
+Qed.
+
 (* the executable run function only visits reachable states *)
 Theorem chan_run_reach cap os : forall s, reach cap s -> reach cap (fst (chan_run s os)).
 Proof.
